@@ -198,6 +198,47 @@ def prepare(root, seed):
         _atomic(p, random.Random(f"{seed}/C18/fw/{k}").randbytes([0, 333][k]))
         ops.append({"op": "encrypt", "id": f"encrypt-{k}", "src": p, "kid": [1, 65536][k], "keys": f"{root}/keys",
                     "alg": ["sha-256", "shake128"][k]})
+    # --- rebuilds: the SAME path is rewritten with other content of the SAME size before the operation runs (variants A
+    # and B of each pair share every plausible cache key: path, size, name). The files live in a directory private to the
+    # interpreter's working directory ({MUT}), so that parallel histories do not disturb each other -------------------
+    def rebuild(oid, write, then):
+        ops.append({"op": "rebuild", "id": oid, "write": write, "then": dict(then, id=oid)})
+    for v in ("A", "B"):
+        rv = random.Random(f"{seed}/C18/rebuild/{v}")
+        fw = rv.randbytes(300)
+        d = {"SUIT_Envelope_Tagged": {
+            "suit-authentication-wrapper": {"SuitDigest": {"suit-digest-algorithm-id": "cose-alg-sha-256"}},
+            "suit-manifest": {"suit-manifest-version": 1, "suit-manifest-sequence-number": 1, "suit-common": {},
+                              "suit-install": [{"suit-directive-override-parameters": {
+                                  "suit-parameter-image-digest": {"suit-digest-algorithm-id": "cose-alg-sha-512",
+                                                                  "suit-digest-bytes": {"file": "{MUT}/fw.bin"}},
+                                  "suit-parameter-image-size": {"file": "{MUT}/fw.bin"}}}]},
+            "suit-integrated-payloads": {"#fw.bin": "{MUT}/fw.bin"}}}
+        rebuild(f"rebuild-create-{v}", {"fw.bin": {"hex": fw.hex()}, "desc.json": {"text": json.dumps(d)}},
+                {"op": "create", "src": "{MUT}/desc.json"})
+        rebuild(f"rebuild-cache-payloads-{v}", {"pl.bin": {"hex": fw[:77].hex()}},
+                {"op": "cache-payloads", "inputs": ["#rebuilt,{MUT}/pl.bin"], "eb": 16})
+        env = class_env("acme.example", "acme_x", {"A": 11, "B": 12}[v])
+        rebuild(f"rebuild-boot-{v}", {"env.suit": {"hex": env.hex()}},
+                {"op": "boot", "files": ["{MUT}/env.suit"], "soc": "nrf54h20", "base": 0x2000,
+                 "config": f"{root}/kc_a.config"})
+        rebuild(f"rebuild-parse-{v}", {"env.suit": {"hex": env.hex()}},
+                {"op": "parse", "src": "{MUT}/env.suit", "fmt": "yaml", "hier": False})
+        rebuild(f"rebuild-sign-{v}", {"env.suit": {"hex": env.hex()}},
+                {"op": "sign", "src": "{MUT}/env.suit", "alg": "eddsa", "key": "ked", "kid": 7, "keys": f"{root}/keys"})
+        ih = IntelHex()
+        ih.frombytes(fw[:48], 0x2000)
+        sio = io.StringIO()
+        ih.write_hex_file(sio)
+        rebuild(f"rebuild-mpi-merge-{v}", {"in.hex": {"hex": sio.getvalue().encode().hex()}},
+                {"op": "mpi-merge", "files": ["{MUT}/in.hex"], "addr": 0x2000, "size": 128})
+        man = mcbor.enc({1: 1, 2: 5, 3: mcbor.enc({})})
+        withpl = mcbor.enc(mcbor.Tag(107, mcbor.Pairs([
+            (2, mcbor.enc([mcbor.enc([-16, hashlib.sha256(mcbor.enc(man)).digest()])])), (3, man), ("#pl", fw[:40])])))
+        rebuild(f"rebuild-cache-envelope-{v}", {"withpl.suit": {"hex": withpl.hex()}},
+                {"op": "cache-envelope", "src": "{MUT}/withpl.suit", "eb": 8, "omit": None, "dep": None})
+        rebuild(f"rebuild-encrypt-{v}", {"fw.bin": {"hex": fw.hex()}},
+                {"op": "encrypt", "src": "{MUT}/fw.bin", "kid": 3, "keys": f"{root}/keys", "alg": "sha-256"})
     # --- failing operations (outcome class must not depend on the history either) -------------------------------
     _atomic(f"{root}/bad.json", json.dumps({"SUIT_Envelope_Tagged": {"suit-unknown": 1}}).encode())
     _atomic(f"{root}/bad.suit", b"\xd8\x6b\xa1\x03\x41\xff")
@@ -223,8 +264,26 @@ def _mask_signed(b):
     return bytes(out)
 
 
+def _subst(x, mut):
+    if isinstance(x, str):
+        return x.replace("{MUT}", mut)
+    if isinstance(x, list):
+        return [_subst(v, mut) for v in x]
+    if isinstance(x, dict):
+        return {k: _subst(v, mut) for k, v in x.items()}
+    return x
+
+
 def run_op(spec, outdir):
     """-> dict(outputs={name: sha}, exc=None|type name)"""
+    if spec["op"] == "rebuild":
+        mut = os.path.join(os.getcwd(), "mutable")
+        os.makedirs(mut, exist_ok=True)
+        for name, c in spec["write"].items():
+            data = bytes.fromhex(c["hex"]) if "hex" in c else c["text"].replace("{MUT}", mut).encode()
+            with open(os.path.join(mut, name), "wb") as fh:      # in place: same path, same size, other content
+                fh.write(data)
+        return run_op(_subst(spec["then"], mut), outdir)
     os.makedirs(outdir, exist_ok=True)
     op = spec["op"]
     outs = {}
